@@ -463,11 +463,19 @@ void campaign(Ctx& ctx)
 	ctx.rc_campaign("end to end", gen_e2e(c10), thorough ? 8000 : 150, 60, 4);
 }
 
+std::vector<Case> generate(Ctx& ctx, int n)
+{
+	std::vector<Case> out; rc::Random rnd(ctx.opt.seed * 6113 + 7); auto g = gen_e2e(true);
+	for (int i = 0; i < n; ++i) { rc::Random r = rnd.split(); out.push_back(g(r, 10 + (i % 50)).value()); }
+	return out;
+}
+
 } // namespace
 
 int main(int argc, char** argv)
 {
 	Harness h;
+	h.generate = generate;
 	h.name = "h_queue";
 	h.run_case = run_case;
 	h.campaign = campaign;
